@@ -49,7 +49,7 @@ TRUSTED = ["(R)/(M) as in C03-C07, C11-C14, C18, C19: C15 runs no reference deci
 ASSUMPTIONS = ["relabellings are injective maps to positive integers (is_one_euclidean: permutations of 1..m)",
                "twins hold the same multiset of ballots over the same alternatives; instance.orders lists the keys "
                "of instance.multiplicity (C02 invariant), categorical ballots are entries of instance.preferences"]
-TIMEOUT_S = 60.0
+TIMEOUT_S = 120.0       # CBC runs with threads = -1 (set by /repo) in up to 16 workers: a loaded machine needs the margin
 CHUNK = 10
 THEOREMS_FOR_OP = {
     "c15.ord": "Properties/C15.v: sp_decide_relabel/_reorder, spw_decide_*, sc_decide_relabel/_perm, sc_algo_verdict_perm, "
@@ -982,7 +982,7 @@ def gen_eucl(tier, seed=0):
     single-peaked + single-crossing but not Euclidean profiles; random profiles; m <= 7, n <= 8"""
     rng = random.Random(EUCL_SEED + 7717 * seed + (0 if tier == "quick" else 1))
     out = []
-    count = 72 if tier == "quick" else 400
+    count = 72 if tier == "quick" else 300
     for i in range(count):
         m, n = rng.randint(3, 7), rng.randint(2, 8)
         alts = list(range(1, m + 1))
@@ -1015,10 +1015,10 @@ def generate(tier, seed):
     rng = random.Random(15_000 + seed * 7919 + (0 if tier == "quick" else 1))
     q = tier == "quick"
     out = []
-    out += gen_strict(rng, tier, 400 if q else 3000)
-    out += gen_small(rng, tier, 120 if q else 900, 14 if q else 80, 10 if q else 60)
-    out += gen_scoring(rng, tier, 300 if q else 2400)
-    out += gen_app(rng, tier, 200 if q else 1600)
-    out += gen_mat(rng, tier, 200 if q else 1600)
+    out += gen_strict(rng, tier, 400 if q else 1600)
+    out += gen_small(rng, tier, 120 if q else 500, 14 if q else 50, 10 if q else 40)
+    out += gen_scoring(rng, tier, 300 if q else 1500)
+    out += gen_app(rng, tier, 200 if q else 1000)
+    out += gen_mat(rng, tier, 200 if q else 1000)
     out += gen_eucl(tier, seed)
     return out
